@@ -5,6 +5,7 @@ import MlModel.Lemmas.Piter2Final
 import MlModel.Lemmas.Piter2Data
 import MlModel.Lemmas.Piter2DataEq
 import MlModel.Lemmas.Piter2Incl
+import MlModel.Lemmas.Piter2Multiset
 /-!
 # C13, the two-level composition `piter(iterator_fn, input_iterators=[i_1 … i_n], max_parallism=P)`
 
@@ -550,5 +551,64 @@ example : ∃ c t0, Reachable (Piter.evalFn .ident none)
   obtain ⟨c, hr, hc⟩ := Option.map_eq_some_iff.mp h
   obtain ⟨t0, ht0, hl⟩ := Option.map_eq_some_iff.mp hc
   exact ⟨c, t0, reachable_run _ _ _ hr, ht0, hl⟩
+
+/-- **conservation across both levels, runs without failure and without early stop** (every schedule, every number of
+inputs and of `iterator_fn` tasks ≥ 1, every capacity of both queues, every batch size of both `DequeueIterator`s, any
+pool, generator or pass-through `iterator_fn`): in a reachable FINAL configuration (caller past `shutdown()`, every task
+of both levels at its end — by `C13_two_no_deadlock` these are exactly the configurations without enabled step when the
+pool satisfies `PoolOK`) in which neither queue has a recorded exception or a stop request and the caller's iteration
+was not cut by `num_steps`,
+* the values delivered to the caller are a PERMUTATION of `iterator_fn`'s outputs over the values of ALL input
+  iterators (`(inputs.flatMap values).flatMap F`: flat-map for a generator `iterator_fn`, the identity for a pass-through);
+* nothing is left anywhere: both queues are empty, the shared cache of `DequeueIterator(Q1)` is empty, neither queue
+  has dropped an element.
+Proof: the links of the chain (`C13_two_fifo`, `_output_exactly_once`, `_second_level_exact`, `_input_exactly_once`,
+`_first_level_exact`) + the end-of-run invariants `End1` / `End2` (`Lemmas/Piter2Close.lean`, `Piter2Close2.lean`):
+while a queue is neither failed nor stopped, `exhausted ⇒ queue empty`, no `get_batch` drops anything, once a task has
+seen the `StopIteration` of the input queue the cache is empty and later `get_batch` calls dequeue nothing, a
+first-level task past `_stop_enqueue` has read all of its input, a second-level task past `_stop_enqueue` holds no
+pending output. -/
+theorem C13_two_multiset {cap1 cap2 bm1 bm2 mw : Nat} {ns : Option Nat} {fwd ff : Bool}
+    {inputs : List InSpec} {gens : List Nat} {c : Piter2.Cfg} (hgen : gens ≠ [])
+    (h : Reachable F (initF cap1 cap2 bm1 bm2 mw ns fwd ff inputs gens) c) (hdone : c.allDone = true)
+    (hexc1 : c.s1.exc = none) (hstop1 : c.s1.stopRequested = false)
+    (hexc2 : c.s2.exc = none) (hstop2 : c.s2.stopRequested = false)
+    {t0 : Th} (ht0 : c.ths[0]? = some t0) (hearly : t0.early = false) :
+    List.Perm (t0.b.received.map (·.2)) ((inputs.flatMap fun i => valsOf i.items).flatMap (Fp F)) ∧
+    c.s1.q = [] ∧ c.s2.q = [] ∧ c.cache = [] ∧ c.s1.lost = [] ∧ c.s2.lost = [] :=
+  two_multiset hgen h hdone ⟨hexc1, hstop1⟩ ⟨hexc2, hstop2⟩ ht0 hearly
+    (C13_two_second_level_exactly_once_partial h ht0).1 (C13_two_input_exactly_once h) (C13_two_fifo h).1
+
+/-- the same for every reachable configuration WITHOUT ENABLED STEP, under the pool condition of
+`C13_two_no_deadlock`: a run without failure and early stop cannot end in any other way than with the caller holding a
+permutation of the sequential result. -/
+theorem C13_two_multiset_quiescent {cap1 cap2 bm1 bm2 mw : Nat} {ns : Option Nat} {fwd ff : Bool}
+    {inputs : List InSpec} {gens : List Nat} {c : Piter2.Cfg} (hin : inputs ≠ []) (hgen : gens ≠ [])
+    (hpool : PoolOK inputs.length gens.length (initF cap1 cap2 bm1 bm2 mw ns fwd ff inputs gens))
+    (h : Reachable F (initF cap1 cap2 bm1 bm2 mw ns fwd ff inputs gens) c) (hq : c.quiescent F)
+    (hexc1 : c.s1.exc = none) (hstop1 : c.s1.stopRequested = false)
+    (hexc2 : c.s2.exc = none) (hstop2 : c.s2.stopRequested = false)
+    {t0 : Th} (ht0 : c.ths[0]? = some t0) (hearly : t0.early = false) :
+    List.Perm (t0.b.received.map (·.2)) ((inputs.flatMap fun i => valsOf i.items).flatMap (Fp F)) :=
+  (C13_two_multiset hgen h (C13_two_no_deadlock hin hgen hpool h hq) hexc1 hstop1 hexc2 hstop2 ht0 hearly).1
+
+/-- test (by `decide`), non-vacuity of the hypotheses of `C13_two_multiset`: the complete run of the example above ends
+in a final configuration without exception, stop request or early stop -/
+example : ∃ c t0, Reachable (Piter.evalFn .ident none)
+      (initF 1 1 1 2 3 none false true [⟨[.val 1], 900, []⟩, ⟨[.val 2], 901, []⟩] [800]) c ∧
+      c.allDone = true ∧ c.s1.exc = none ∧ c.s1.stopRequested = false ∧ c.s2.exc = none ∧
+      c.s2.stopRequested = false ∧ c.ths[0]? = some t0 ∧ t0.early = false := by
+  have h : ((run (Piter.evalFn .ident none)
+      (initF 1 1 1 2 3 none false true [⟨[.val 1], 900, []⟩, ⟨[.val 2], 901, []⟩] [800])
+      (List.replicate 10 0 ++ List.replicate 17 1 ++ List.replicate 7 2 ++ List.replicate 13 3 ++ List.replicate 23 2 ++
+        List.replicate 9 3 ++ List.replicate 18 0 ++ List.replicate 22 3 ++ List.replicate 18 0 ++ List.replicate 14 3 ++
+        List.replicate 6 0 ++ List.replicate 7 3 ++ [0])).map fun c =>
+          (c.allDone, c.s1.exc.isNone, c.s1.stopRequested, c.s2.exc.isNone, c.s2.stopRequested,
+            c.ths[0]?.map (·.early))) =
+      some (true, true, false, true, false, some false) := by decide +kernel
+  obtain ⟨c, hr, hc⟩ := Option.map_eq_some_iff.mp h
+  simp only [Prod.mk.injEq, Option.map_eq_some_iff, Option.isNone_iff_eq_none] at hc
+  obtain ⟨h1, h2, h3, h4, h5, t0, ht0, h6⟩ := hc
+  exact ⟨c, t0, reachable_run _ _ _ hr, h1, h2, h3, h4, h5, ht0, h6⟩
 
 end MlModel.C13
